@@ -31,7 +31,7 @@ pub struct Case {
 }
 
 fn strategy(max_len: usize, max_l: usize) -> impl Strategy<Value = Case> {
-    (prop_oneof![Just(1u32), Just(2u32), 1u32..20, prop::sample::select(vec![32u32, 64, 128])], prop_oneof![6 => 1usize..=max_l, 1 => (max_l + 1)..=15usize], any::<bool>(), 1u8..10, prop_oneof![3 => Just(0u8), 1 => 1u8..4], any::<u64>()).prop_flat_map(move |(m, l, wy, alpha, family, base)| {
+    (prop_oneof![Just(1u32), Just(2u32), 1u32..20, prop::sample::select(vec![32u32, 64, 128])], prop_oneof![6 => 1usize..=max_l, 1 => (max_l + 1)..=15usize], any::<bool>(), 1u8..10, prop_oneof![3 => Just(0u8), 2 => 1u8..6], any::<u64>()).prop_flat_map(move |(m, l, wy, alpha, family, base)| {
         let seq = move |lo: usize, hi: usize| prop::collection::vec(0u8..alpha, lo..=hi);
         (seq(l, max_len.max(l + 4)), prop::collection::vec(any::<u16>(), 1..=max_len), prop::collection::vec(seq(l, l + 8), 0..3)).prop_map(move |(s, perm, history)| Case { m, l, wy, family, base, seq: s, perm, history })
     })
@@ -45,7 +45,10 @@ fn label(c: &Case, x: u8) -> u64 {
         0 => 0x5EED_0000 + x,
         1 => x.swap_bytes(),
         2 => ((c.base & 0xFFFF_FFFF) | (x << 32) | (x << 48)).swap_bytes(),
-        _ => (c.base ^ x).swap_bytes(),
+        3 => (c.base ^ x).swap_bytes(),
+        // hash values whose two 32-bit halves have a constant xor (4) or a constant sum (5): any 32-bit folding of the hash collides
+        4 => (((x + 1) << 32) | ((c.base ^ (x + 1)) & 0xFFFF_FFFF)).swap_bytes(),
+        _ => (((x + 1) << 32) | ((c.base & 0xFFFF_FFFF).wrapping_sub(x + 1) & 0xFFFF_FFFF)).swap_bytes(),
     }
 }
 
